@@ -1,10 +1,14 @@
 import Driver.Common
 import OrdModel.Wallet.Builder
+import OrdModel.Generated.BuilderFixes
 /- Line handlers for the builder engine (property C20).  Stateful: `builder.fee` lines announce
 the dense table `fee(0..N)` of one fee rate (keyed by the rate's f64 bits); `builder.build`
 lines refer to it. -/
 namespace Driver.Builder
 open Ord Ord.Builder
+
+/-- the repairs present in the source (regenerated from /repo on every run) -/
+def fixes : Fixes := { subOverflow := Generated.subOverflowFixed, zeroBurn := Generated.zeroBurnFixed }
 
 structure State where
   tables : List (String × Array Nat) := []
@@ -116,7 +120,7 @@ def handle (st : State) : List String → State × Option String
     match st.tables.lookup bits, parseCase rcp c0 c1 tgt out am ins lk ru with
     | some t, some c =>
       if maxVsize c < t.size then
-        let env : Env := { fee := fun n => t[n]!, dust := c.dust }
+        let env : Env := { fee := fun n => t[n]!, dust := c.dust, fixes := fixes }
         (st, some (renderOutcome " " (build env c.w c.r)))
       else (st, some "bad-op fee-table-too-short")
     | none, _ => (st, some "bad-op no-fee-table")
@@ -127,11 +131,18 @@ def handle (st : State) : List String → State × Option String
     | some t, some num, some den =>
       (st, some (toString (den != 0 && (List.range t.size).all fun n => t[n]! == (2 * num * n + den) / (2 * den))))
     | _, _, _ => (st, some "bad-op")
+  -- what-if: the model with both proposed repairs present (not used by the check)
+  | ["builder.fixed", bits, rcp, c0, c1, tgt, out, am, ins, lk, ru] =>
+    match st.tables.lookup bits, parseCase rcp c0 c1 tgt out am ins lk ru with
+    | some t, some c =>
+      let env : Env := { fee := fun n => t[n]!, dust := c.dust, fixes := { subOverflow := true, zeroBurn := true } }
+      (st, some (renderOutcome " " (build env c.w c.r)))
+    | _, _ => (st, some "bad-op")
   -- debugging aid: like `builder.build` but panics are rendered with their full site name
   | ["builder.site", bits, rcp, c0, c1, tgt, out, am, ins, lk, ru] =>
     match st.tables.lookup bits, parseCase rcp c0 c1 tgt out am ins lk ru with
     | some t, some c =>
-      let env : Env := { fee := fun n => t[n]!, dust := c.dust }
+      let env : Env := { fee := fun n => t[n]!, dust := c.dust, fixes := fixes }
       match build env c.w c.r with
       | .panic s => (st, some s!"panic {s}")
       | o => (st, some (renderOutcome " " o))
